@@ -73,6 +73,8 @@ class StorageUnitLabel:
         """
 
         # Storage Unit Sequence Number
+        if isinstance(self.sequence_number, bool) or not isinstance(self.sequence_number, int) or self.sequence_number < 0:
+            raise ValueError(f"Sequence number must be a non-negative integer of up to 4 digits; got {self.sequence_number}")
         _susn_as_bytes = get_ascii_bytes(str(self.sequence_number), 4)
 
         # DLIS Version
